@@ -16,6 +16,8 @@ pub struct Weights {
     pub unadopt: u32,
     pub loopback: u32,
     pub remove: u32,
+    pub strip: u32,
+    pub unique_root: u32,
     pub downgrade: u32,
     pub clone_weak: u32,
     pub drop_weak: u32,
@@ -39,6 +41,8 @@ impl Weights {
             unadopt: 5,
             loopback: 2,
             remove: 7,
+            strip: 2,
+            unique_root: 1,
             downgrade: 5,
             clone_weak: 2,
             drop_weak: 3,
@@ -105,6 +109,8 @@ fn plain_op(wt: &Weights) -> BoxedStrategy<Op> {
             wt.remove,
             (s(), s(), any::<bool>(), any::<bool>()).prop_map(|(owner, slot, unadopt, keep)| Op::Remove { owner, slot, unadopt, keep }).boxed(),
         ),
+        (wt.strip, (s(), any::<bool>(), any::<bool>()).prop_map(|(target, unadopt, keep)| Op::StripHandlesTo { target, unadopt, keep }).boxed()),
+        (wt.unique_root, s().prop_map(Op::UniqueRoot).boxed()),
         (wt.downgrade, s().prop_map(Op::Downgrade).boxed()),
         (wt.clone_weak, s().prop_map(Op::CloneWeak).boxed()),
         (wt.drop_weak, s().prop_map(Op::DropWeak).boxed()),
@@ -168,7 +174,7 @@ fn op(g: &GenCfg) -> BoxedStrategy<Op> {
     let wn = g.weights.new;
     let total: u32 = {
         let w = &g.weights;
-        w.new + w.clone + w.drop + w.drop_closure + w.store + w.adopt_slot + w.unadopt + w.loopback + w.remove + w.downgrade + w.clone_weak + w.drop_weak + w.upgrade + w.store_weak + w.remove_weak + w.weak_new + w.probe + w.consume * 15
+        w.new + w.clone + w.drop + w.drop_closure + w.store + w.adopt_slot + w.unadopt + w.loopback + w.remove + w.strip + w.unique_root + w.downgrade + w.clone_weak + w.drop_weak + w.upgrade + w.store_weak + w.remove_weak + w.weak_new + w.probe + w.consume * 15
     };
     let mut wt = g.weights.clone();
     wt.new = 0;
